@@ -31,7 +31,7 @@ type entry struct {
 	// seeds the entry point is expected to refuse although they are valid artefacts (wrong password, other
 	// layout); every other seed must be accepted unmodified, or the sweep from it would be vacuous
 	rejects []string
-	chunk int  // positions per case (default 256); smaller for entry points that cost milliseconds
+	chunk   int // positions per case (default 256); smaller for entry points that cost milliseconds
 }
 
 func catalogue(w *world) []*entry {
